@@ -415,6 +415,50 @@ def shielding_nodes(which):
         shutil.rmtree(d, ignore_errors=True)
 
 
+def ucl_helpers(_):
+    """the helper functions UCLCHEM's CO photodissociation law is written in - dust-scattering attenuation (Wagenblast
+    & Hartquist 1989) over tau(lambda)/tau(V) (Savage & Mathis 1979) and the mean band wavelength (van Dishoeck &
+    Black 1988 eq. 4) - compiled from the generated sources and compared with a second transcription on a grid that
+    brackets every branch point (tl = 1, exponent = 35, table nodes, clipping of lambda-bar)"""
+    from ..harness import ratesrun as RR
+    from ..harness.render import render, reset_globals, quiet
+
+    reset_globals()
+    from naunet.network import Network
+    from naunet.reactions.reaction import Reaction
+    from naunet.reactiontype import ReactionType
+
+    with quiet():
+        net = Network([Reaction(["H", "H"], ["H2"], -1.0, -1.0, 1e-17, 0.0, 0.0, ReactionType.GAS_TWOBODY, 1)], required_species=["H2", "CO", "H"])
+        files = render(net, "dense", RR.RATE_TEMPLATES_CVODE)
+    avs = [0.0, 0.05, 0.2, 0.22, 0.3, 0.5, 0.8, 1.0, 1.086, 1.2, 2.0, 5.0, 8.0, 10.0, 20.0, 60.0]
+    wls = [800.0, 910.0, 913.0, 930.0, 1000.0, 1025.0, 1076.0, 1100.0, 2190.0, 5500.0, 33999.0, 34000.0, 50000.0]
+    exprs, want = [], []
+    for av in avs:
+        for wl in wls:
+            exprs.append(f"GetGrainScattering({av!r}, {wl!r})")
+            want.append(("scatter", (av, wl), L.ucl_scatter(av, wl)))
+    for h2 in (0.0, 1e18, 1e20, 8e20, 1e22, 1e24):
+        for co in (0.0, 1e12, 1e15, 1e17, 1e19):
+            exprs.append(f"GetCharactWavelength({h2!r}, {co!r})")
+            want.append(("lambda-bar", (h2, co), L.vdb88_lambda_bar(h2, co)))
+    fields = [f for f, _ in RR.data_fields(files)]
+    grid = [{k: v for k, v in GRID[0].items() if k in fields}]
+    res = RR.build_and_run(files, grid, helpers=exprs)
+    if res.get("compile_error"):
+        first = next((ln for ln in res["compile_error"].splitlines() if "error" in ln), "")
+        return 0, [("C05:ucl-helpers:compile", first[:300], {"ucl_helpers": True})]
+    if res.get("run_error"):
+        raise HarnessError(res["run_error"])
+    got = res["helpers"][0]
+    viols = []
+    for (kind, arg, ref), g in zip(want, got):
+        if not L.same(g, ref, 1e-12):
+            viols.append((f"C05:ucl-helpers:{kind}", f"generated {'GetGrainScattering' if kind == 'scatter' else 'GetCharactWavelength'}{arg} = {g!r}, UCLCHEM's routine gives {ref!r}", {"ucl_helpers": True}))
+            break
+    return len(want), viols
+
+
 def run(ctx):
     ps = packs(ctx.tier)
     total = nval = skipped = 0
@@ -429,7 +473,11 @@ def run(ctx):
         nodes[which] = n
         nval += n
         ctx.absorb(viols)
+    for n, viols in ctx.pmap(ucl_helpers, [0]):
+        nval += n
+        ctx.absorb(viols)
     ctx.assumptions += [
+        "UCLCHEM's CO photodissociation helpers (dust scattering, tau(lambda)/tau(V), lambda-bar) are compared with a second transcription of photoreac.f90 on a grid bracketing every branch point; the Savage & Mathis table values themselves are copied, only the control flow around them is independent",
         "the tabulated shielding functions themselves are judged by an interpolation invariant only: at every node of the generated table (positive neighbourhood) the compiled helper returns the table value; values between nodes and beyond the table are not judged",
         "reference laws: KIDA formulae 1-5 (Wakelam+2012), UMIST RATE12 (McElroy+2013), Walsh+2015 (Leeds), UCLCHEM v1.3, transcribed in mc/ref/ratelaws.py; zism = 1.3e-17",
         "shielding/scattering helper values entering a law are taken from the compiled helpers themselves, so only the law around them is judged",
@@ -454,6 +502,9 @@ def run(ctx):
 
 
 def replay(ctx, case):
+    if "ucl_helpers" in case:
+        ctx.absorb(ucl_helpers(0)[1])
+        return
     if "shielding_nodes" in case:
         ctx.absorb(shielding_nodes(case["shielding_nodes"])[2])
         return
